@@ -75,3 +75,15 @@ Definition meta_current (d : disk) : bool := match dmeta d with MJson (Some VThi
    no usable index at all (which the next start notices) *)
 Definition good (d : disk) : bool :=
   negb (meta_current d) || match dindex d with IOpen Shipped | IMissing | IBroken => true | _ => false end.
+
+(* A start that keeps its index in memory (Db::in_memory): it always rebuilds, into an index in RAM; of the persistent effects only
+   the write of meta.json can reach the data directory, and only if the translated guard lets it. *)
+Definition mem_start (d : disk) : disk :=
+  let writes := match meta_written_when with
+                | OnDiskOnly => false
+                | Always => true
+                | IfIndexDir => match dindex d with IMissing => false | _ => true end
+                end in
+  if writes then {| dmeta := MJson (Some VThis) (Some HCur); dindex := dindex d |} else d.
+Inductive event := Kill (cp : nat) | Memory.
+Definition step_event (d : disk) (e : event) : disk := match e with Kill cp => crash_run cp d | Memory => mem_start d end.
